@@ -8,6 +8,8 @@ import (
 	"fmt"
 	"sync"
 
+	"github.com/efficientgo/core/errors"
+
 	"github.com/thanos-community/promql-engine/execution/model"
 
 	"github.com/prometheus/prometheus/model/labels"
@@ -70,6 +72,13 @@ func (c *concurrencyOperator) Next(ctx context.Context) ([]model.StepVector, err
 
 func (c *concurrencyOperator) pull(ctx context.Context) {
 	defer close(c.buffer)
+	// A panic while evaluating the next operator is reported to the consumer
+	// as an error instead of crashing the process.
+	defer func() {
+		if e := recover(); e != nil {
+			c.buffer <- maybeStepVector{err: panicToError(e)}
+		}
+	}()
 
 	for {
 		select {
@@ -94,4 +103,11 @@ func (c *concurrencyOperator) drainBufferOnCancel(ctx context.Context) {
 	<-ctx.Done()
 	for range c.buffer {
 	}
+}
+
+func panicToError(e any) error {
+	if err, ok := e.(error); ok {
+		return errors.Wrap(err, "unexpected error")
+	}
+	return errors.Newf("unexpected error: %v", e)
 }
